@@ -5,7 +5,8 @@
    as a known finding (booleans). *)
 From Coq Require Import List ZArith Bool Lia String Ascii.
 From SDC Require Import Scalars.Lex Scalars.Lex_Proofs Scalars.Timestamp Scalars.Timestamp_Proofs
-  Scalars.Decimal Scalars.Decimal_Proofs Scalars.Duration Scalars.Duration_Proofs.
+  Scalars.Decimal Scalars.Decimal_Proofs Scalars.Duration Scalars.Duration_Proofs
+  Scalars.DateTime Scalars.DateTime_Proofs.
 Import ListNotations.
 Open Scope Z_scope.
 
@@ -110,6 +111,13 @@ Theorem C18_duration_rejects_non_lexical : forall s, parse_duration_us s <> D_RE
 Proof. exact duration_rejects_non_lexical. Qed.
 Print Assumptions C18_duration_rejects_non_lexical.
 
+(* ------------------------------------------------------------------ date / time (seconds at microsecond resolution) *)
+(* every valid xsd:dateTime / date / gYearMonth / gYear value (any year, optional time zone, end-of-day form)
+   is written to a string that parses back to exactly the same value *)
+Theorem C18_datetime_roundtrip : forall v, dt_valid v = true -> parse_dt (dt_chars v) = DtOk v.
+Proof. exact dt_py_xml_py. Qed.
+Print Assumptions C18_datetime_roundtrip.
+
 (* ------------------------------------------------------------------ non-vacuity *)
 Example C18_nonvacuous :
   ts_to_py 1001 = (4616297704445814784, 4611686018427387904) /\ ts_to_xml (ts_to_py 1001) = 1001 /\
@@ -118,5 +126,7 @@ Example C18_nonvacuous :
   dec_to_xml (mkdec true "123456789012345678" (-18)) = "-0.123456789012345678"%string /\
   dec_to_xml (mkdec false "1" (-7)) = "0.0000001"%string /\
   duration_to_xml 3661000001 = "PT1H1M1.000001S"%string /\ duration_to_py "PT1H1M1.000001S" = 3661000001 /\
-  int_to_py " +0012 " = Some 12 /\ int_to_py "1_0" = None.
+  int_to_py " +0012 " = Some 12 /\ int_to_py "1_0" = None /\
+  dt_valid (mkdt 2020 (Some 5) None None false (Some (-360))) = true /\
+  dt_to_xml (mkdt 2020 (Some 5) None None false (Some (-360))) = "2020-05-06:00"%string.
 Proof. vm_compute. repeat split; congruence. Qed.
